@@ -9,7 +9,7 @@
      src/HooghSchoenmakersSkoricVillegasVRHE.cc:966-1029, src/PedersenVSS.cc:147-229,
      src/GennaroJareckiKrawczykRabinDKG.cc:250-335,1375-1465, src/CanettiGennaroJareckiKrawczykRabinASTC.cc:240-325,
      1159-1244,1847-1936,2686-2775, src/JareckiLysyanskayaASTC.cc:130-187,335-398, src/NaorPinkasEOTP.cc:105-160
-                                                 CheckGroup   (check_group_gens with k derived as (p-1) div q, and
+                                                 CheckGroup   (check_group_gens with k derived as (p-1) div q after the sign test of fix 7223137, and
                                                  the canonical-generator test where the class has one)
    GMP primitives are modelled on all integers: mpz_sizeinbase(.,2) (sizeinbase2), mpz_powm incl. negative
    exponents and the division-by-zero abort (mpz_powm : option Z), mpz_probab_prime_p(n) = is_prime |n|,
@@ -126,11 +126,13 @@ Section Checks.
     | x :: r => in_range x p && negb (x =? h) && forallb (fun y => negb (x =? y)) r && others_ok h p r
     end.
 
-  (* derive_k: k := (p-1) div q after refusing q = 0 (VRHE, PedersenVSS, DKGs, RVSS, ZVSS, DSS, NTS, JL-RVSS, EOTP);
-     otherwise k is a stored parameter (PedersenCommitmentScheme, PedersenTrapdoorCommitmentScheme).
+  (* sign_test: the check starts with `if (mpz_sgn(q) <= 0) throw false` (fix 7223137: every class below except
+     PedersenCommitmentScheme and, through it, GrothSKC/GrothVSSHE).
+     derive_k: k := (p-1) div q after that sign test (VRHE, PedersenVSS, DKGs, RVSS, ZVSS, DSS, NTS, JL-RVSS, EOTP);
+     otherwise k is a stored parameter (PedersenCommitmentScheme: no sign test; PedersenTrapdoorCommitmentScheme: sign test).
      canonical: the first element of gs must be the verifiably derived generator. *)
-  Definition check_group_gens (fuel : nat) (F G : Z) (derive_k canonical : bool) (p q k0 h : Z) (gs : list Z) : verdict :=
-    if derive_k && (q =? 0) then Reject
+  Definition check_group_gens (fuel : nat) (F G : Z) (sign_test derive_k canonical : bool) (p q k0 h : Z) (gs : list Z) : verdict :=
+    if (sign_test || derive_k) && (q <=? 0) then Reject
     else
       let k := if derive_k then (p - 1) / q else k0 in
       if negb (check_core F G p q k) then Reject
